@@ -205,6 +205,19 @@ class SqliteStateStore(Generic[MODEL_T]):
             row = cursor.fetchone()
 
             if row is None:
+                # No row yet. A parent-type state must still be merged into
+                # the default state of this store's (child) type, as the
+                # in-memory store does, instead of replacing the state type.
+                try:
+                    default_state = self._create_default_state()
+                except Exception:
+                    default_state = None
+                if (
+                    default_state is not None
+                    and type(state) is not type(default_state)
+                    and isinstance(default_state, type(state))
+                ):
+                    state = merge_state(default_state, state)  # type: ignore[assignment]
                 self._save_state(state, conn)
                 conn.commit()
                 return
